@@ -300,8 +300,13 @@ def run_behaviour(beh: dict, big=False, cache_mb=None, skip_bad=False):
             internal = err is not None and err not in DELIBERATE or (err == 'RuntimeError' and (msg or '').startswith('NetCDF'))
 
             def dev(what, desc, _ev=ev, _si=si, _internal=internal):
+                # an addition the specification has the store refuse (a valid trajectory an in-memory store at the
+                # capacity of its cache cannot take) is a rejected addition: what it leaves behind is C10's clause,
+                # and at the same time a violation of C07's (length, order)
+                refused_add = _ev['op'] == 'add' and _ev['ok'] == 'no'
                 return {
-                    'prop': classify(_ev['op'], _ev['arg'], has_bad, ids_in_play, _internal),
+                    **({'also': 'C07'} if refused_add else {}),
+                    'prop': 'C10' if refused_add else classify(_ev['op'], _ev['arg'], has_bad, ids_in_play, _internal),
                     'step': _si,
                     'op': _ev['op'],
                     'arg': _ev['arg'],
